@@ -76,7 +76,9 @@ const SHIM_METHODS: [&str; 34] = [
 ];
 
 // path calls renamed to free shim functions
-const SHIM_PATHS: [(&str, &str); 9] = [
+const SHIM_PATHS: [(&str, &str); 11] = [
+    ("metadata", "rws_metadata"),
+    ("File::open", "rws_file_open"),
     ("IpAddr::from_str", "rws_ipaddr_from_str"),
     ("SocketAddr::new", "rws_socketaddr_new"),
     ("env::var", "rws_env_var"),
